@@ -73,6 +73,11 @@ def check_property(prop, tier, seed):
     if tier == 'thorough':
         os.environ['VERIF_NOCACHE'] = '1'
     runs = _run_units(units, index, seed, tier)
+    # residue guard (vx/residue.py): did code the property depends on change OUTSIDE every function under contract?
+    from . import residue as RS
+    if os.environ.get('VERIF_REBASE_RESIDUE'):
+        RS.rebaseline(prop, runs)
+    res_changed, _res_cur = RS.changed(prop, runs)
     extra_seed_runs = []
     if tier == 'thorough':
         # two further SMT seeds: an obligation that flips between seeds is unstable -> UNDECIDED
@@ -100,7 +105,7 @@ def check_property(prop, tier, seed):
         fbs = meta.get('fallback', [])
         if not fbs:
             continue
-        if not (u.undecided or tier == 'thorough'):
+        if not (u.undecided or tier == 'thorough' or res_changed):
             continue
         from . import scratch
         for drv in fbs:
@@ -162,7 +167,10 @@ def check_property(prop, tier, seed):
     for o, d, u in c['unbaselined']:
         c['undecided'].append(f'{o.id} fails and is neither in the baseline nor a known finding: {d["message"]} at {d.get("site")}')
     wall = time.time() - t0
-    write_evidence(prop, tier, seed, runs, c, wall, index, violation_lines, fallback_runs)
+    write_evidence(prop, tier, seed, runs, c, wall, index, violation_lines, fallback_runs, res_changed)
+    if res_changed:
+        print(f'NOTE property={prop}: code outside the functions under contract changed in {", ".join(res_changed)}; '
+              f'the bounded real-code drivers of this property were run as well ({len(fallback_runs)} driver run(s))')
     for ln in known_lines:
         print(ln)
     for r in c['undecided']:
@@ -180,7 +188,7 @@ def check_property(prop, tier, seed):
     return 0
 
 
-def write_evidence(prop, tier, seed, runs, c, wall, index, violation_lines, fallback_runs=()):
+def write_evidence(prop, tier, seed, runs, c, wall, index, violation_lines, fallback_runs=(), res_changed=()):
     os.makedirs(EVID, exist_ok=True)
     known_ids = sorted(set(o.id for o, _, _ in c['known']))
     obs = [o for o in c['obligations'] if o.id not in known_ids]
@@ -248,6 +256,8 @@ def write_evidence(prop, tier, seed, runs, c, wall, index, violation_lines, fall
             'solver': solver_ms,
             'bounded': bounded + [dict(fr, label='bounded (never counted as discharged)') for fr in fallback_runs],
             'not_under_contract': not_under,
+            'residue_guard': {'files_changed_outside_the_functions_under_contract': list(res_changed),
+                              'meaning': 'anchor files minus the slices under contract, comments and whitespace dropped, hashed and compared with baseline/residue.json; a difference makes the check run the bounded drivers too'},
             'rewrites': rewrites,
             'canaries': canaries,
             'undecided': c['undecided'],
@@ -318,6 +328,13 @@ def main(argv):
         return RP.replay_file(args[1])
     if args[0] == '--unit':
         return dev_unit(args[1], rebaseline, seed)
+    if args[0] == '--rebaseline-residue':
+        os.environ['VERIF_REBASE_RESIDUE'] = '1'
+        man = json.load(open(os.path.join(ROOT, 'MANIFEST.json')))
+        for c in man['checks']:
+            rc = check_property(c['property_id'], 'quick', seed)
+            print(c['property_id'], 'exit', rc)
+        return 0
     if args[0] == '--all':
         rc = 0
         for u in R.unit_index():
